@@ -6,7 +6,7 @@
      expr  val | (v X) | (OP a b) with OP one of + - * < =
      cond  (cv X) | (not c) | (clt a b) | (ceq a b)
      stmt  skip | (asg X e) | (seq s s) | (if c s s) | (while c s) | (print e) | (cc K) | (call X F e...)
-   mutex    (mutex FX op...)  ops: l u rl ru -> "ok|fatal|block errs=<n>"  (FX = 0 as found, 1 fixed) *)
+   mutex    (mutex FX op...)  ops: l u rl ru -> "ok,err,...[,fatal|,block]" one entry per executed operation  (FX = 0 as found, 1 fixed) *)
 open C01_Core
 
 type sx = A of string | L of sx list
@@ -125,11 +125,19 @@ let run_sx (x : sx) : string =
         | RFuel -> ("fuel", "")
       in
       "wt=" ^ b01 w ^ " guard=" ^ b01 g ^ " res=" ^ res ^ " out=" ^ out
-  | L (A "mutex" :: A fx :: ops) -> (
-      match elk_run (fx = "1") e_new (List.map mop_of ops) with
-      | SOk _ | SErr _ -> "ok"
-      | SFatal -> "fatal"
-      | SBlock -> "block")
+  | L (A "mutex" :: A fx :: ops) ->
+      (* per-operation outcome: ok / err (UnlockedError) ; the history stops at fatal / block *)
+      let rec go e ops acc =
+        match ops with
+        | [] -> List.rev acc
+        | o :: r -> (
+            match elk_step (fx = "1") e o with
+            | SOk e' -> go e' r ("ok" :: acc)
+            | SErr e' -> go e' r ("err" :: acc)
+            | SFatal -> List.rev ("fatal" :: acc)
+            | SBlock -> List.rev ("block" :: acc))
+      in
+      String.concat "," (go e_new (List.map mop_of ops) [])
   | _ -> failwith "input"
 
 let () =
